@@ -883,6 +883,16 @@ def comparison_only(dag, names, consts_out=None):
                     return False, "%s is compared with %s" % (what, ("the constant %#x" % other[1]) if other[0] == "c" and isinstance(other[1], int) else "a computed value")
                 continue
             if p_[0] == "call" and p_[1] == "kth":
+                foreign = [e for e in p_[2][1:] if id(e) not in words]
+                if foreign:
+                    # sorted together with something that is not a slot word (a pad constant): every word is thereby
+                    # compared with it
+                    cs_ = [e for e in foreign if e[0] == "c"]
+                    if len(cs_) == len(foreign) and consts_out is not None:
+                        consts_out.update(e[1] for e in cs_)
+                        continue
+                    what = x[1] if x[0] == "atom" else "an order statistic of the slots"
+                    return False, "%s is sorted together with %s" % (what, ("the constant %#x" % cs_[0][1]) if cs_ and isinstance(cs_[0][1], int) else "a computed value")
                 continue
             if p_[0] == "ite" and p_[1] is not x:
                 continue
@@ -1109,6 +1119,7 @@ def check_C19(ctx):
             if im is None:
                 rep.ob("C19.from-array", short(path), False, "no From<[u32; %d]> impl" % n)
             else:
+                ctx.check_shadow(path, "from", "core::convert::From", im["items"]["from"], None)
                 r = ctx.summ(im["items"]["from"], [("v", agg(("array",), sa))]).ret
                 got = arr_of(r)
                 rep.ob("C19.from-array", short(path), got is not None and all(g is e for g, e in zip(got, sa)) and len(got) == n, "From<[u32; %d]> gives %s" % (n, describe_slots(got)), pdb.where(im["items"]["from"]))
@@ -1240,7 +1251,10 @@ def check_selection(ctx, rule, path, n):
             e = dict(sl)
             e.update({"p%d" % i: rnd.randrange(n) for i in range(5)})
             envs.append(e)
-    panic_free(ctx, rule + ".no-panic", s_, envs, True, "%s::five_from_permutation" % short(path))
+    # (the index tuples are enumerated, the slot words are not: a counterexample with in-range indexes counts,
+    # whatever the words are)
+    panic_free(ctx, rule + ".no-panic", s_, envs, True, "%s::five_from_permutation" % short(path),
+               in_domain=lambda e_: all((not callable(v_)) and 0 <= v_ < n for k_, v_ in e_.items() if k_.startswith("p") and k_[1:].isdigit()))
     rep.sample({"rule": rule, "container": short(path), "index_tuples_covered": n ** 5, "folds": cnt})
     return s_
 
